@@ -36,6 +36,12 @@ func runC08(c *an.Ctx) {
 	// round 7
 	c.As(map[string]string{"R15i": "R08l"}, func() { r15i(c) })
 	filterOnlyByType(c, "R08m", "FilterCalls")
+	// round 8
+	r08n(c)
+	r08o(c)
+	r08p(c)
+	r08r(c)
+	filterOnlyByType(c, "R08q", "FilterTasks")
 }
 
 func r08a(c *an.Ctx) {
